@@ -248,12 +248,14 @@ def view_requests():
         yield SV.AReq(method=method, path=path, root=root, query=query, headers=headers, client=client, chunks=[b"abc"] if method == "POST" else [])
 
 
-def body_requests():
+def body_requests(tier="quick"):
     from .c10 import KINDS
 
     for kind, (B, ct) in KINDS.items():
         headers = [("Content-Type", ct)] if ct else []
         splits = [[B]] + [[B[:i], B[i:]] for i in range(1, len(B))] + [[b"", B], [B, b""], [B[:1], b"", B[1:]]] + ([[B[:3], B[3:9], B[9:]]] if len(B) > 9 else [])
+        if tier == "thorough" and len(B) <= 40:
+            splits += [[B[:i], B[i:j], B[j:]] for i in range(1, len(B)) for j in range(i + 1, len(B))]
         for chunks in splits:
             yield kind, SV.AReq(method="POST", path="/p", headers=headers, chunks=chunks)
     # a multipart body with multi-byte text and several fields, every two-way split
@@ -330,7 +332,7 @@ def run_shard(desc, tier):
         r.sample({"recipe": "echo view", "request": reqs[len(reqs) // 2].describe()})
     elif kind == "bodies":
         apps = {i: echo_app(i) for i in ("wsgi", "asgi")}
-        for bk, areq in body_requests():
+        for bk, areq in body_requests(tier):
             compare(r, f"echo-body:{bk}", apps, areq, f"POST {bk} body in chunks {[len(c) for c in areq.chunks]}")
         r.sample({"recipe": "echo view with body", "body_kind": "multipart2", "chunking": "every two-way split"})
     elif kind == "sequences":
